@@ -405,11 +405,13 @@ class Check:
         elif not ok_ax:
             self.proof_detail = "axiom audit failed:\n" + raw[-2000:]
         if self.tier == "thorough" and self.proof_ok:
-            ok, out = leanchecker("IodineModel.Props." + self.prop)
-            self.cov["leanchecker"] = "ok" if ok else out[-500:]
-            if not ok:
-                self.proof_ok = False
-                self.proof_detail = "leanchecker rejected IodineModel.Props.%s:\n%s" % (self.prop, out[-1500:])
+            for mod in prop_modules(self.prop):
+                ok, out = leanchecker("IodineModel.Props." + mod)
+                self.cov["leanchecker"] = "ok" if ok else out[-500:]
+                if not ok:
+                    self.proof_ok = False
+                    self.proof_detail = "leanchecker rejected IodineModel.Props.%s:\n%s" % (mod, out[-1500:])
+                    break
         return self.proof_ok
 
     def driver(self):
